@@ -7,6 +7,9 @@ import FeatModel.Lemmas.C02Cscr
 import FeatModel.Lemmas.C02Banded
 import FeatModel.Lemmas.C02ChainSpec
 import FeatModel.Lemmas.C02Alias
+import FeatModel.Lemmas.C02BcsrPerm
+import FeatModel.Lemmas.C02Rebuild
+import FeatModel.Lemmas.C02Round
 /-!
 # C02 — conversion, cloning, transposition and permutation preserve the matrix (property theorems)
 
@@ -176,8 +179,13 @@ theorem C02.clone_observation_table {α : Type} [DecidableEq α] (h : Heap α) (
     cloneObservation h c m mark dflt = match m with
       | .shallow => (!c.vals.isEmpty, !c.idxs.isEmpty, decide (0 < h.valSize c), decide (0 < h.valSize c))
       | .layout | .weak => (false, !c.idxs.isEmpty, false, false)
-      | .deep => (false, false, false, false) :=
+      | .deep | .allocate => (false, false, false, false) :=
   C02L.cloneObservation_table h c hok m mark dflt hmark hmd
+
+/-- `CloneMode::Allocate`: fresh index arrays and fresh value arrays, nothing shared with the source -/
+theorem C02.clone_allocate_fresh {α : Type} (h : Heap α) (c : Handle) :
+    (∀ id ∈ (h.clone c .allocate).2.vals, h.vals.size ≤ id) ∧ (∀ id ∈ (h.clone c .allocate).2.idxs, h.idxs.size ≤ id) :=
+  C02L.clone_allocate_fresh h c
 
 /-! ### chains -/
 
@@ -224,12 +232,72 @@ theorem C02.stepAlias_agrees {α : Type} [Zero α] (fill : α) (m : Mat α) (hv 
     (∀ t, m.stepAlias fill a = .self t → ∃ o, a.base m.fmt = some o ∧ m.step o = .ok t) :=
   C02L.stepAlias_agrees fill m hv a
 
+/-! ### extension round: block / vector permutation, rebuilds, type conversions, `transpose_inplace` -/
+
+/-- `SparseMatrixBCSR::permute(P, Q)` (permutations of the block rows / columns, the CSR algorithm on the block pattern):
+    the result exists, has a valid layout and `B(i,j) = A(p(i/bh)·bh + i%bh, q(j/bw)·bw + j%bw)` -/
+theorem C02.bcsr_permute_spec {α : Type} [Zero α] [Add α] (A : Bcsr α) (p q : Array Nat)
+    (hA : A.valid = true) (hne : A.isArrayless = false) (hbh : 0 < A.bh) (hbw : 0 < A.bw)
+    (hp : Csr.isPerm p = true) (hq : Csr.isPerm q = true) (hps : p.size = A.rows) (hqs : q.size = A.cols) :
+    ∃ B, A.permute p q = some B ∧ B.bh = A.bh ∧ B.bw = A.bw ∧ B.rows = A.rows ∧ B.cols = A.cols ∧ B.valid = true ∧
+      ∀ i j, i < A.rows * A.bh → j < A.cols * A.bw →
+        B.entry i j = A.entry (p.getD (i / A.bh) 0 * A.bh + i % A.bh) (q.getD (j / A.bw) 0 * A.bw + j % A.bw) :=
+  C02L.bcsr_permute_spec A p q hA hne hbh hbw hp hq hps hqs
+
+/-- `DenseVector::permute(P)`: `y[i] = x[p i]` -/
+theorem C02.vecPermute_spec {α : Type} [Zero α] (x : Array α) (p : Array Nat) (hp : p.size = x.size) (hpos : 0 < p.size) :
+    ∃ y, vecPermute x p = some y ∧ y.size = x.size ∧ ∀ i, i < x.size → y.getD i 0 = x.getD (p.getD i 0) 0 :=
+  C02L.vecPermute_spec x p hp hpos
+
+/-- rebuilding from the layout object (constructor `layoutz`, or `operator=` on a pre-existing target `layouta k`), for
+    CSR / banded / CSCR / BCSR: valid layout, same dimensions, exactly the source's index arrays and a value array of
+    exactly the source's length (BCSR: blocks·bh·bw) — `mapVal (fun _ => 0)` erases the values and nothing else — and the
+    zero matrix after `format()`; the source is untouched -/
+theorem C02.layout_rebuild_spec {α : Type} [Zero α] [Add α] (h0 : (0 : α) + 0 = 0) (round : α → α) (m t : Mat α)
+    (s : Option (Mat α)) (hv : m.valid = true) (o : XOp) (ho : o = .layoutz ∨ ∃ k, o = .layouta k)
+    (h : m.stepX round o = .ok t s) :
+    (s = none ∨ s = some m) ∧
+    t.valid = true ∧ t.rows = m.rows ∧ t.cols = m.cols ∧
+    t.mapVal (fun _ => (0 : α)) = m.mapVal (fun _ => (0 : α)) ∧ (∀ i j, t.entry i j = 0) :=
+  C02L.stepX_layout_spec h0 round m hv o ho t s h
+
+/-- rebuilding a CSR matrix from its adjacency graph (`SparseMatrixCSR(graph)`): same pattern, zero values -/
+theorem C02.graph_rebuild_spec {α : Type} [Zero α] [Add α] (h0 : (0 : α) + 0 = 0) (round : α → α) (A : Csr α)
+    (hv : A.valid = true) (t : Mat α) (s : Option (Mat α)) (h : (Mat.csr A).stepX round .graphz = .ok t s) :
+    ∃ B, t = .csr B ∧ B.valid = true ∧ B.rows = A.rows ∧ B.cols = A.cols ∧ B.rowPtr = A.rowPtr ∧ B.colInd = A.colInd ∧
+      B.val.size = A.val.size ∧ ∀ i j, B.entry i j = 0 :=
+  C02L.graph_rebuild_spec h0 round A hv t s h
+
+/-- index-type round trip (u32 <-> u64, every index passes through 32 bits): the identity — i.e. equal to the `it` step
+    of `C02.chain_spec` — for every valid container whose sizes fit 32 bits (all that can be allocated) -/
+theorem C02.stepX_itx_eq {α : Type} [Zero α] (round : α → α) (m : Mat α) (hv : m.valid = true) (hf : C02L.sizeFit m) :
+    m.stepX round .itx = .ok m none ∧ m.step .it = .ok m :=
+  C02L.stepX_itx_valid round m hv hf
+
+/-- data-type round trip `Q -> double -> float -> Q` (truncation to 53 bits, then round-to-nearest-even to 24 bits):
+    the identity on every float-representable value `± m · 2^e`, `m < 2^24` … -/
+theorem C02.roundDt_exact (m : Nat) (hm : m < 2 ^ 24) (e : Int) (neg : Bool) :
+    roundDt ((if neg then -1 else 1) * (m : Rat) * 2 ^ e) = (if neg then -1 else 1) * (m : Rat) * 2 ^ e :=
+  C02L.roundDt_exact_zpow m hm e neg
+
+/-- … and genuinely a rounding elsewhere (the three probes the correspondence run replays on the real code) -/
+theorem C02.roundDt_probes :
+    roundDt (1 / 3) = 11184811 / 33554432 ∧ roundDt 16777217 = 16777216 ∧ roundDt (-33554435 / 2) = -16777218 :=
+  ⟨C02L.roundDt_probe_third, C02L.roundDt_probe_2p24p1, C02L.roundDt_probe_neg⟩
+
+/-- `DenseMatrix::transpose_inplace()` (kernel on the own buffer through a temporary copy, then the dimensions
+    swapped) is the transpose: the driver's step equals the `tri` step of `C02.chain_spec` -/
+theorem C02.transposeInplace_eq {α : Type} [Zero α] (round : α → α) (m : Mat α) (hv : m.valid = true) (t : Mat α)
+    (s : Option (Mat α)) (h : m.stepX round .triDense = .ok t s) : m.step .tri = .ok t ∧ s = none :=
+  C02L.stepX_triDense_eq round m hv t s h
+
 /-!
 ### Covered by the correspondence run only (no theorem here)
 * that a chain does not abort (`C02.chain_spec` assumes `run = some _`; the aborts that remain are the open known
   findings D6 / D7 and a permutation of the wrong size);
-* data-type and index-type conversion (`assign` with `DT2_ ≠ DT_` / `IT2_ ≠ IT_`) and the layout/graph rebuilds: the model
-  is the identity on the arrays;
+* the effect of the data-type round trip on values that are not float-representable (the model `roundDt` is compared
+  with the real code on every generated value; only its fixed points are characterised by a theorem), exponent
+  range / denormals, and index values ≥ 2^32 (not allocatable);
 * the inputs of the open known findings c02-edge:D1/D3/D5 (real code crashes; the model shows the intended result)
   and D6/D7 (real code and model abort) are executed and judged on every run.
 -/
